@@ -370,6 +370,9 @@ pub fn script_from_bytes(data: &[u8]) -> (crate::sim::Script, bool) {
             version: if ctrl & 0x20 != 0 { Some("0.20.23".to_string()) } else { None },
             vectored: ctrl & 0x10 != 0,
             events_polled_last: false,
+            error_kind: 0,
+            real_ms_per_advance: 0,
+            noise_connection: false,
         },
         faulty && fault_used,
     )
